@@ -239,3 +239,18 @@ PROPS["C16"]["rule"] += TRIPW_RULE
 
 # the case lines of this kind are long: a smaller in-Coq sample keeps coqc's parsing time down
 PROPS["C16"]["shard"] = {"tripw": 16}
+WTMO_RULE = (" wtmo: the REAL LMTP server (WriteTimeout 300 ms) on a TCP loopback listener, an LMTPSession backend that follows a script of"
+             " steps {read the message, SetStatus(addr, err), sleep 3 x WriteTimeout} - prompt (control); second / third recipient late; the whole"
+             " delivery late (sleep before / after reading); first status before the message is read and the others late one after the other;"
+             " statuses set in reverse order with the first one late; no status and a late return of nil / an error; one status and a late error -"
+             " x recipient lists {a b c, a b a (repeated address), a x b (x refused at RCPT)} x {DATA, BDAT LAST, two BDAT chunks}; the client sends"
+             " the whole conversation (LHLO .. message, NOOP, QUIT) in one write and reads until the server closes. No sleep has to fall INSIDE a"
+             " window: the delays are fixed sleeps above the time-out, writes into an empty socket buffer do not block. Oracle (CheckWtmo.v, no model):"
+             " the client received exactly one reply per accepted recipient, in RCPT order, with the text the property prescribes for the status"
+             " set for it (else LMTPData's return value), and the NOOP and QUIT behind the message were answered (exact list of reply codes).")
+PROPS["C13"]["kinds"] = ["wtmo"] + PROPS["C13"]["kinds"]
+PROPS["C13"]["rule"] += WTMO_RULE
+PROPS["C13"]["trusted_base"] = PROPS["C13"]["trusted_base"] + ["wtmo: no model; the expectations are computed by harness/genwtmo.go from the property text and judged by CheckWtmo.v on the octets the client received"]
+
+# the case lines of this kind are long (whole conversations in hex, twice): a smaller in-Coq sample
+PROPS["C13"]["shard"] = {"wtmo": 16}
